@@ -560,6 +560,14 @@ func runDHCPOn(tb drv.TB, rec *drv.Rec, sub string, h dhcpHistory, or dhcpOracle
 			frame = ref.Eth(dstMAC, mac, 0x0800, ref.IP4(ref.IP4Hdr{TotalLen: -1, TTL: 64, Proto: 17, Checksum: -1, Src: src, Dst: dst}, ref.UDP(68, 67, -1, 0, m.Encode(true))))
 		case "capture":
 			env.s.Capture(hwOf(mac))
+			// an application that captures a station also tells the handlers (StartHunt): the DHCP handler then forges a
+			// RELEASE towards the real server for the lease the station holds in the home LAN
+			if ip, ok := led.holding(ident); ok {
+				if p, sig, st := drv.Catch(func() { env.h.StartHunt(packet.Addr{MAC: hwOf(mac), IP: ip}) }); p != nil {
+					violate(step, sig, "StartHunt panicked: %v\n%s", p, st)
+					return
+				}
+			}
 		case "uncapture":
 			env.s.Release(hwOf(mac))
 		case "tick":
